@@ -9,6 +9,13 @@ structure DState where
   s : SHeap := ⟨fun x => x⟩
   hh : HHeap := ⟨fun _ => none, fun _ => none, fun _ => none⟩
   nheads : Nat := 0
+  /-- observable (round 3 correction): nodes that were removed with the plain `dlist_del` and not
+  re-initialised / re-inserted since — the property says of them only that no list reaches them, so
+  their own link fields (the poison values) are NOT part of the compared dump -/
+  removed : List Nat := []
+  /-- slist nodes that are in no list (popped, orphaned by re-initialising their head): their stale
+  `next` is not compared -/
+  sfree : List Nat := []
 
 def FUEL : Nat := 100000
 
@@ -47,16 +54,24 @@ def tTok (st : DState) (v : Nat) : String :=
 def dump (st : DState) : String :=
   match st.kind with
   | "c" => if st.n > 16 then "" else
-      " ".intercalate ((List.range st.n).map fun i => s!"{i}:{showPtr (st.h.next i)}/{showPtr (st.h.prev i)}")
+      " ".intercalate ((List.range st.n).map fun i =>
+        if st.removed.contains i then s!"{i}:-/-" else s!"{i}:{showPtr (st.h.next i)}/{showPtr (st.h.prev i)}")
   | "t" => " ".intercalate (((List.range (st.n - st.nheads)).map fun i =>
-        s!"{i}:a={tTok st (st.h.next (tNode i 0))}/{tTok st (st.h.prev (tNode i 0))},b={tTok st (st.h.next (tNode i 1))}/{tTok st (st.h.prev (tNode i 1))}")
+        let f := fun (m : Nat) => if st.removed.contains (tNode i m) then "-/-"
+                  else s!"{tTok st (st.h.next (tNode i m))}/{tTok st (st.h.prev (tNode i m))}"
+        s!"{i}:a={f 0},b={f 1}")
       ++ ((List.range st.nheads).map fun j =>
         s!"{st.n - st.nheads + j}:{tTok st (st.h.next (tHead j))}/{tTok st (st.h.prev (tHead j))}"))
   | "x" => " ".intercalate ((List.range st.n).map fun i =>
       if st.alive.contains i then s!"{i}:{showPtr (st.h.next i)}/{showPtr (st.h.prev i)}" else s!"{i}:dead")
-  | "s" => " ".intercalate ((List.range st.n).map fun i => s!"{i}:{st.s.next i}")
-  | "h" => " ".intercalate ((List.range st.n).map fun i =>
-      if i < st.n - st.nheads then s!"{i}:{showOpt (st.hh.next i)}/{showLoc (st.hh.pprev i)}"
+  | "s" => " ".intercalate ((List.range st.n).map fun i =>
+      if st.sfree.contains i then s!"{i}:-" else s!"{i}:{st.s.next i}")
+  | "h" =>
+      -- a node that is in no chain (deleted, orphaned, never added): neither `next` nor `pprev` is compared
+      let linked := ((List.range st.nheads).map fun j => hlistToList st.hh (st.n + 1) (st.n - st.nheads + j)).flatten
+      " ".intercalate ((List.range st.n).map fun i =>
+      if i < st.n - st.nheads then
+        (if linked.contains i then s!"{i}:{showOpt (st.hh.next i)}/{showLoc (st.hh.pprev i)}" else s!"{i}:-/-")
       else s!"{i}:{showOpt (st.hh.first i)}")
   | _ => "?"
 
@@ -91,12 +106,12 @@ def step3 (st : DState) (op a b : String) : DState × String :=
     match nat? a, nat? b with
     | some a, some b =>
       match op with
-      | "cadd_next" => res { st with h := dlistAddNext st.h a b } "ok"
-      | "cadd_prev" => res { st with h := dlistAddPrev st.h a b } "ok"
+      | "cadd_next" => res { st with h := dlistAddNext st.h a b, removed := st.removed.erase a } "ok"
+      | "cadd_prev" => res { st with h := dlistAddPrev st.h a b, removed := st.removed.erase a } "ok"
       | "cmove" => res { st with h := dlistMove st.h a b } "ok"
       | "cmove_tail" => res { st with h := dlistMoveTail st.h a b } "ok"
-      | "cinsert_instead" => res { st with h := dlistInsertInstead st.h a b } "ok"
-      | "cmove_sorted" => res { st with h := dlistMoveSorted st.h (fun x y => decide (x < y)) FUEL a b } "ok"
+      | "cinsert_instead" => res { st with h := dlistInsertInstead st.h a b, removed := st.removed.erase a } "ok"
+      | "cmove_sorted" => res { st with h := dlistMoveSorted st.h (fun x y => decide (x < y)) FUEL a b, removed := st.removed.erase a } "ok"
       | "cin" => res st (if dlistIn st.h FUEL a b then "1" else "0")
       | "ccheck" => res st (toString (dlistCheck st.h a b))
       | "ccheck_rev" => res st (toString (dlistCheckReversed st.h a b))
@@ -105,12 +120,12 @@ def step3 (st : DState) (op a b : String) : DState × String :=
       | "xmove_front" => res { st with h := nodeMoveNextThan st.h b a } "ok"   -- list a, node b
       | "xmove_back" => res { st with h := nodeMovePrevThan st.h b a } "ok"
       | "xsplice" => res { st with h := listSplice st.h a b } "ok"
-      | "sadd" => res { st with s := slistAdd st.s a b } "ok"
+      | "sadd" => res { st with s := slistAdd st.s a b, sfree := st.sfree.erase a } "ok"
       | "spop_entry" =>   -- list a, idiom b (0: mcast_out_or_null(slist_pop_first(..)), 1: slist_pop_first_entry)
         let r := slistPopFirst st.s a
-        res { st with s := r.1 } (keyOfEntry (mcastOutOrNull (ptrOf (r.2.map HADDR)) XOFF))
-      | "sxadd" => res { st with s := slistAdd st.s a b } "ok"
-      | "smove_front" => res { st with s := slistMoveFront st.s FUEL a b } "ok"
+        res { st with s := r.1, sfree := r.2.toList ++ st.sfree } (keyOfEntry (mcastOutOrNull (ptrOf (r.2.map HADDR)) XOFF))
+      | "sxadd" => res { st with s := slistAdd st.s a b, sfree := st.sfree.erase a } "ok"
+      | "smove_front" => res { st with s := slistMoveFront st.s FUEL a b, sfree := st.sfree.erase a } "ok"
       | "sin" => res st (if slistIn st.s FUEL a b then "1" else "0")
       | "cpoke_next" => res { st with h := st.h.setNext a b } "ok"
       | "cpoke_prev" => res { st with h := st.h.setPrev a b } "ok"
@@ -149,8 +164,8 @@ def stepT3 (st : DState) (op m a : String) : DState × String :=
       match nat? a with
       | some a => (match m with
         | "h" => res { st with h := dlistInit st.h (tHeadOf st a) } "ok"
-        | "a" => res { st with h := dlistInit st.h (tNode a 0) } "ok"
-        | "b" => res { st with h := dlistInit st.h (tNode a 1) } "ok"
+        | "a" => res { st with h := dlistInit st.h (tNode a 0), removed := st.removed.erase (tNode a 0) } "ok"
+        | "b" => res { st with h := dlistInit st.h (tNode a 1), removed := st.removed.erase (tNode a 1) } "ok"
         | _ => bad)
       | none => bad
     else
@@ -161,7 +176,7 @@ def stepT3 (st : DState) (op m a : String) : DState × String :=
       let ob : Addr := BitVec.ofNat 64 (tObj a)
       match op with
       | "tdel" => res { st with h := dlistDelInit st.h (tNode a m) } "ok"
-      | "tdelp" => res { st with h := dlistDel st.h (tNode a m) } "ok"
+      | "tdelp" => res { st with h := dlistDel st.h (tNode a m), removed := tNode a m :: st.removed } "ok"
       | "tentries" => res st (ids ((dlistForEachEntry st.h FUEL hd off).map tKey))
       | "tentries_rev" => res st (ids ((dlistForEachEntryReverse st.h FUEL hd off).map tKey))
       | "tfirst" => res st (tKeyOrEnd st (tOff m) (dlistFirstEntry st.h hd off))
@@ -176,13 +191,13 @@ def stepT4 (st : DState) (op m a b : String) : DState × String :=
     match mem? m, nat? a, nat? b with
     | some m, some a, some b =>
       match op with
-      | "tadd" => res { st with h := dlistAddNext st.h (tNode a m) (tHeadOf st b) } "ok"
-      | "tadd_tail" => res { st with h := dlistAddPrev st.h (tNode a m) (tHeadOf st b) } "ok"
+      | "tadd" => res { st with h := dlistAddNext st.h (tNode a m) (tHeadOf st b), removed := st.removed.erase (tNode a m) } "ok"
+      | "tadd_tail" => res { st with h := dlistAddPrev st.h (tNode a m) (tHeadOf st b), removed := st.removed.erase (tNode a m) } "ok"
       | "tmove" => res { st with h := dlistMove st.h (tNode a m) (tHeadOf st b) } "ok"
       | "tmove_tail" => res { st with h := dlistMoveTail st.h (tNode a m) (tHeadOf st b) } "ok"
       | "tmove_to" => res { st with h := dlistMove st.h (tNode a m) (tNode b m) } "ok"
       | "tmove_tail_to" => res { st with h := dlistMoveTail st.h (tNode a m) (tNode b m) } "ok"
-      | "tsorted" => res { st with h := dlistMoveSorted st.h (fun x y => decide (x < y)) FUEL (tNode a m) (tHeadOf st b) } "ok"
+      | "tsorted" => res { st with h := dlistMoveSorted st.h (fun x y => decide (x < y)) FUEL (tNode a m) (tHeadOf st b), removed := st.removed.erase (tNode a m) } "ok"
       | _ => bad
     | _, _, _ => bad
 -- tsafe <m> <head> <p> <q> <mode> <tgt> | tsafe raw <m> <head> <p> <q>
@@ -207,7 +222,8 @@ def stepTsafe (st : DState) (ws : List String) : DState × String :=
              else dlistMoveTail h (mcastIn e off).toNat (tHeadOf st tgt))
           else h
         let r := dlistForEachEntrySafe body st.h FUEL (BitVec.ofNat 64 (tHeadOf st hd)) off
-        res { st with h := r.1 } (ids (r.2.map tKey))
+        let gone := if mode = 1 then (r.2.filter fun e => tKey e % p = q).map fun e => (mcastIn e off).toNat else []
+        res { st with h := r.1, removed := gone ++ st.removed } (ids (r.2.map tKey))
       | _, _, _, _, _, _ => bad
     | _ => bad
 
@@ -250,8 +266,8 @@ def stepLine (st : DState) (line : String) : DState × String :=
     | none => bad
     | some a =>
       match op with
-      | "cinit" => res { st with h := dlistInit st.h a } "ok"
-      | "cdel" => res { st with h := dlistDel st.h a } "ok"
+      | "cinit" => res { st with h := dlistInit st.h a, removed := st.removed.erase a } "ok"
+      | "cdel" => res { st with h := dlistDel st.h a, removed := a :: st.removed } "ok"
       | "cdel_init" => res { st with h := dlistDelInit st.h a } "ok"
       | "csize" => res st (toString (dlistSizeC st.h FUEL a))
       | "csize_rev" => res st (toString (dlistSizeReversedC st.h FUEL a))
@@ -279,7 +295,9 @@ def stepLine (st : DState) (line : String) : DState × String :=
       | "xwalk" => res st (ids (dlistToList st.h FUEL a) ++ "/" ++ ids (dlistToListRev st.h FUEL a))
       | "xfront" => res st (toString (xId (listFront st.h (BitVec.ofNat 64 a) XOFF)))
       | "xback" => res st (toString (xId (listBack st.h (BitVec.ofNat 64 a) XOFF)))
-      | "sinit" => res { st with s := slistInit st.s a } "ok"
+      | "sinit" =>
+        -- the elements of a re-initialised head are in no list afterwards
+        res { st with s := slistInit st.s a, sfree := ((if st.sfree.contains a then [] else slistToList st.s (st.n + 1) a) ++ st.sfree).erase a } "ok"
       | "smacros" =>
         -- every container_of-style macro applied to the (once evaluated) node / object pointer of item a
         let node : Addr := BitVec.ofNat 64 (HADDR a)
@@ -296,7 +314,7 @@ def stepLine (st : DState) (line : String) : DState × String :=
         res { st with hh := r.1 } (keyOfEntry (mcastOutOrNull (ptrOf (r.2.map HADDR)) XOFF))
       | "spop" =>
         let (s', r) := slistPopFirst st.s a
-        res { st with s := s' } (match r with | some v => toString v | none => "null")
+        res { st with s := s', sfree := r.toList ++ st.sfree } (match r with | some v => toString v | none => "null")
       | "ssize" => res st (toString (slistSizeC st.s FUEL a))
       | "sempty" => res st (if slistEmpty st.s a then "1" else "0")
       | "slist" => res st (ids (slistToList st.s FUEL a))
